@@ -1,6 +1,7 @@
 package main
 
 import (
+	"github.com/lugu/qiloop/type/object"
 	"fmt"
 	"io/ioutil"
 	"log"
@@ -26,6 +27,7 @@ type probeImpl struct {
 	helper pong.PingPongSignalHelper
 	echo   bool
 	log    func(string)
+	name   string // when set, the answer names the service: a proxy to another service is noticed
 }
 
 func (p *probeImpl) Activate(a bus.Activation, h pong.PingPongSignalHelper) error {
@@ -41,7 +43,7 @@ func (p *probeImpl) Hello(a string) (string, error) {
 	if strings.HasPrefix(a, "sleep") {
 		time.Sleep(700 * time.Millisecond)
 	}
-	return "echo:" + a, nil
+	return "echo:" + p.name + a, nil
 }
 func (p *probeImpl) Ping(a string) error {
 	atomic.AddInt64(&p.calls, 1)
@@ -137,7 +139,7 @@ func childSessionStress(a []string) string {
 		h := &host{l: cl, srv: srv}
 		for j := 0; j < 2; j++ {
 			name := fmt.Sprintf("Probe%d_%d", i, j)
-			if _, err := srv.NewService(name, pong.PingPongObject(&probeImpl{})); err != nil {
+			if _, err := srv.NewService(name, pong.PingPongObject(&probeImpl{name: name + "/"})); err != nil {
 				return "setup-error:" + err.Error()
 			}
 			h.names = append(h.names, name)
@@ -147,6 +149,37 @@ func childSessionStress(a []string) string {
 	names := []string{"ServiceDirectory"}
 	for _, h := range hosts {
 		names = append(names, h.names...)
+	}
+
+	// object references to the main objects: what Session.Object is asked for
+	// (learnt through a session of their own, closed again: the hosting session holds no connection to
+	// the two endpoints, the count of connections below is that of the session under test)
+	refs := map[string]object.ObjectReference{}
+	{
+		tmp, err := session.NewSession(addrA)
+		if err != nil {
+			return "setup-error:" + err.Error()
+		}
+		time.Sleep(20 * time.Millisecond)
+		for _, name := range names[1:] {
+			p, err := tmp.Proxy(name, 1)
+			if err != nil {
+				return "setup-error:" + err.Error()
+			}
+			refs[name] = object.ObjectReference{MetaObject: *p.MetaObject(), ServiceID: p.ServiceID(), ObjectID: 1}
+		}
+		tmp.Terminate()
+		deadline := time.Now().Add(3 * time.Second)
+		for time.Now().Before(deadline) {
+			sum := int64(0)
+			for _, h := range hosts {
+				sum += atomic.LoadInt64(&h.l.active)
+			}
+			if sum == 0 {
+				break
+			}
+			time.Sleep(5 * time.Millisecond)
+		}
 	}
 
 	for round := 0; round < rounds; round++ {
@@ -170,7 +203,18 @@ func childSessionStress(a []string) string {
 			go func(g int, name string) {
 				defer wg.Done()
 				<-start
-				proxy, err := sess.Proxy(name, 1)
+				var proxy bus.Proxy
+				var err error
+				if ref, ok := refs[name]; ok && g%2 == 1 {
+					// an object request: the reference names the service by its id
+					proxy, err = sess.Object(ref)
+					if err == nil && proxy.ServiceID() != ref.ServiceID {
+						errs <- fmt.Sprintf("object:%s: proxy of service %d for a reference to service %d", name, proxy.ServiceID(), ref.ServiceID)
+						return
+					}
+				} else {
+					proxy, err = sess.Proxy(name, 1)
+				}
 				if err != nil {
 					errs <- "proxy:" + name + ":" + err.Error()
 					return
@@ -182,8 +226,8 @@ func childSessionStress(a []string) string {
 				got, err := pong.MakePingPong(sess, proxy).Hello(arg)
 				if err != nil {
 					errs <- "call:" + err.Error()
-				} else if got != "echo:"+arg {
-					errs <- "wrong-answer:" + got
+				} else if got != "echo:"+name+"/"+arg {
+					errs <- "wrong-answer:" + got + " from " + name
 				}
 			}(g, name)
 		}
